@@ -231,6 +231,7 @@ class Outcome:
         self.tier = tier
         self.seed = seed
         self.t0 = time.time()
+        self.judged_j = 0
         self.evaluations = 0
         self.nontrivial = set()
         self.samples = []
@@ -352,6 +353,115 @@ def impl_floats(cb, impl):
                     out.append(("name", it[1], tuple(a for a, _ in it[3])))
                     out += [b2f(p) for _, p in it[3]]
     return out
+
+
+def build_model_j(timeout=3000):
+    """the jittered twin of Exec (tools/gen_execj.py): regenerated from Exec.v, then compiled"""
+    import importlib.util
+    spec = importlib.util.spec_from_file_location("gen_execj", os.path.join(VERIF, "tools", "gen_execj.py"))
+    m = importlib.util.module_from_spec(spec)
+    spec.loader.exec_module(m)
+    m.ensure()
+    ensure_makefile()
+    p = subprocess.run(["make", "-j16", "theories/ExecJ.vo", "theories/ExecK.vo", "theories/ExecU.vo", "theories/ExecD.vo"], cwd=COQDIR, capture_output=True, text=True, timeout=timeout)
+    if p.returncode != 0:
+        raise RuntimeError("jittered model build failed:\n" + p.stdout[-3000:] + p.stderr[-3000:])
+
+
+def model_rounding_sensitive(cb, model, rel, name="condj", extra_imports=""):
+    """Evaluate the model of this case once more at the jittered binary64 instance FNumJ (every inexact operation
+    moved by one ulp, exact operations kept exact).  If the model's OWN results move by more than rel/10 (or a
+    support / status changes), the case amplifies rounding noise beyond the comparison tolerance — typically a
+    cumulative regret that is zero up to rounding decides a branch of regret matching — and a model/implementation
+    difference on it says nothing about the property."""
+    from . import coqrun
+    from .common import deep_close
+    try:
+        build_model_j()
+        for mod_ in ("ExecU", "ExecD", "ExecJ", "ExecK"):      # always up / always down / by parity, both ways
+            other = coqrun.run_shards(name, [cb.coq()], extra_imports=extra_imports, exec_module=mod_).get(cb.cid)
+            if other is not None and deep_close(model, other, rel / 10) is not None:
+                return True
+    except Exception:
+        return False
+    return False
+
+
+def rounding_explains(cb, dis, rel, name="condp", extra_imports="", multi_names=None, exe_env=None):
+    """Is the first model/implementation disagreement of this case explained by rounding noise that the algorithm
+    itself amplifies?  The solve behind the first disagreeing op is repeated for every prefix budget T' <= T on the
+    implementation, on the model (FNum) and on jittered instances of the model (FNumU/D/J/K: every inexact operation
+    moved by one ulp, in four different patterns).  The disagreement is excused iff at EVERY prefix the
+    implementation's result agrees (within the comparison tolerance) with the model or with one of the jittered
+    models: whatever the implementation returns is then something the specified algorithm itself returns under a
+    one-ulp perturbation of its arithmetic (a cumulative regret that is zero up to rounding decides a branch of
+    regret matching; the trajectories separate there and usually meet again later).  A defect in an update rule
+    produces, at some prefix, a result that none of them produces, and is not excused.  Returns (excused, info)."""
+    from . import coqrun, harness as H
+    from .common import b2f
+    from .ops import CaseBuilder, compare_op
+    try:
+        k = int(dis[0][1].split()[1])
+    except Exception:
+        return False, "no op index"
+    srcs, _ = cb.deps[k]
+    kind = cb.kinds[k]
+    if kind.startswith("solve"):
+        j = k
+    else:
+        if len(srcs) != 1:
+            return False, "not derived from one solve"
+        j = next((i for i, (_, d) in enumerate(cb.deps) if d == srcs[0]), None)
+        if j is None or not cb.kinds[j].startswith("solve") or cb.ops[j].get("op") != "solve":
+            return False, "not derived from a solve"
+    o = cb.ops[j]
+    T = int(o["iters"])
+    if T < 2 or T > 400:
+        return False, "budget outside 2..400"
+    prefixes = list(range(1, T + 1)) if T <= 40 else sorted(set(list(range(1, 21)) + [int(round(20 + (T - 20) * i / 20.0)) for i in range(1, 21)]))
+    params = o["params"]
+    if isinstance(params, list):
+        params = [b2f(x) for x in params]
+    c2 = CaseBuilder(cb.cid, cb.tree, dict(cb.meta))
+    idx = []
+    for t in prefixes:
+        s_ = c2.solve(o["method"], t, b2f(o["max_reg"]), o["threads"], params, o.get("draws"), yield_seed=o.get("yield_seed", 0))
+        c2.named(s_)
+        idx.append(len(c2.ops) - 2)
+    variants = ("Exec", "ExecU", "ExecD", "ExecJ", "ExecK")
+    try:
+        build_model_j()
+        impl = H.run_cases(name, [c2.case()]).get(cb.cid, {})
+        runs = {}
+        for mod_ in variants:
+            r = coqrun.run_shards(name + "_" + mod_, [c2.coq()], extra_imports=extra_imports, exec_module=mod_).get(cb.cid)
+            if r is None:
+                return False, "model run failed (%s)" % mod_
+            runs[mod_] = r[1]
+    except Exception as e:
+        return False, "exception %s" % e
+    if "ops" not in impl:
+        return False, "implementation produced no result on the prefix case"
+    first_diff = None
+    used = set()
+    for t, i in zip(prefixes, idx):
+        ok = None
+        for m in variants:
+            if all(compare_op(kd, impl["ops"][i + off], runs[m][i + off], rel, multi_names) is None
+                   for off, kd in ((0, "solve"), (1, "named"))):
+                ok = m
+                break
+        if ok is None:
+            return False, ("at budget %d the implementation's result is produced neither by the model nor by any of its "
+                           "one-ulp perturbations (first budget where it leaves the model itself: %s)" % (t, first_diff or t))
+        if ok != "Exec":
+            used.add(ok)
+            if first_diff is None:
+                first_diff = t
+    if first_diff is None:
+        return False, "the prefix runs agree with the model although the original operation did not"
+    return True, ("from budget %d on the implementation follows a one-ulp perturbation of the model (%s) instead of the model; "
+                  "it never leaves the set of perturbed models" % (first_diff, ",".join(sorted(used))))
 
 
 def ill_conditioned(cb, impl, rel, name="cond", trials=4, eps=1e-13):
